@@ -21,11 +21,15 @@ Expected(m, q, o) ==
     [] o.kind = "count" -> [n |-> Cardinality(DOMAIN m)]
     [] o.kind = "ranked" -> [hits |-> Hits(m, TopK(m, o.k)), scored |-> Scored(q)]
     [] o.kind = "error" -> [noerror |-> TRUE]
+    [] o.kind = "list" -> [list |-> Hits(m, Ids(m)), scored |-> Scored(q)]
 
 ObsOK(m, q, o) ==
   CASE o.kind = "ids" -> o.ids = Ids(m)
     [] o.kind = "count" -> o.n = Cardinality(DOMAIN m)
     [] o.kind = "error" -> FALSE      \* a search of a well-formed query never raises
+    [] o.kind = "list" ->             \* what stepping a top-level matcher delivered, in docnum order
+         IF Scored(q) /\ o.cmp = "full" THEN o.list = Hits(m, Ids(m))
+         ELSE [i \in DOMAIN o.list |-> o.list[i][1]] = Ids(m)
     [] o.kind = "ranked" ->
          IF Scored(q) /\ o.cmp = "full" THEN o.hits = Hits(m, TopK(m, o.k))
          ELSE \* scores not fixed by the documentation: membership and size only
